@@ -3,6 +3,7 @@
 from __future__ import annotations
 
 from .. import adapters, engine, ops
+from ..ref import positions as rpos
 from ..ref import tokens as tk
 from . import common
 
@@ -33,6 +34,7 @@ def units(tier, seed):
         {"sid": "iso", "family": "iso", "size": 8 if q else 10, "donor": ("iso", 7 if q else 8), "max_slices": 50 if q else 250},
         {"sid": "iso", "family": "iso_list", "size": 10 if q else 12, "donor": ("iso_list", 9), "max_slices": 50 if q else 250},
         {"sid": "table", "family": "table", "size": 14 if q else 20, "donor": ("table", 12 if q else 14), "max_slices": 50 if q else 250},
+        {"sid": "iso_attr", "family": "iso_attr", "size": 8 if q else 10, "donor": ("iso_attr", 7), "max_slices": 40 if q else 200},
         {"sid": "iso_li", "family": "lists", "size": 12 if q else 14, "donor": ("lists", 10), "max_slices": 40 if q else 200},
     ]
     for sp in specs:
@@ -54,6 +56,33 @@ def iso_nodes(model, T):
             if model.types[T[o][1]].isolating:
                 out.append((o, i, len(st) + 1))
     return sorted(out)
+
+
+def raw_step_in_domain(model, T, o, frm, to, sl):
+    """A raw ReplaceStep is a token splice (C02).  If the slice itself carries closing tokens that reach the isolating
+    node (it closes more context nodes than are open between that node and `from`, or re-opens more than are open
+    between it and `to`), splitting the node is what the step SAYS - only slices that stay inside are in the domain."""
+    inner = tk.content_tokens(model, sl["content"])
+    inner = inner[sl["openStart"]: len(inner) - sl["openEnd"]]
+    depth = lo = 0
+    for t in inner:
+        if t[0] == "o":
+            depth += 1
+        elif t[0] == "c":
+            depth -= 1
+            lo = min(lo, depth)
+    closes_ctx, opens_ctx = -lo, depth - lo
+
+    def rel(pos):
+        dd = 0
+        for t in T[o + 1: pos]:
+            if t[0] == "o":
+                dd += 1
+            elif t[0] == "c":
+                dd -= 1
+        return dd
+
+    return closes_ctx <= rel(frm) and opens_ctx <= rel(to)
 
 
 def count_iso(model, T):
@@ -90,10 +119,12 @@ def check_doc(c, sc, d, pools, res):
     iso_count = count_iso(model, T)
     for o, cl, depth_in in isos:
         # positions inside: o+1 .. cl
-        for op in ops.enumerate_ops(model, n, pools, groups=("replace",)):
+        for op in ops.enumerate_ops(model, n, pools, groups=("replace", "steps")):
             frm = op.get("from", op.get("pos"))
             to = op.get("to", op.get("pos"))
             if not (o + 1 <= frm <= to <= cl):
+                continue
+            if op["op"] == "replace_step" and not raw_step_in_domain(model, T, o, frm, to, op["slice"]):
                 continue
             engine.kick(10)
             res.transitions += 1
@@ -116,6 +147,8 @@ def check_doc(c, sc, d, pools, res):
                             fingerprint=clause + ":" + op["op"], size=n)
         # lift targets and splits inside
         seen = set()
+        seen_br = set()
+        refdoc = rpos.RefDoc(model, d)
         for p in range(o + 1, cl + 1):
             rp = node.resolve(p)
             for q in range(p, cl + 1):
@@ -123,9 +156,20 @@ def check_doc(c, sc, d, pools, res):
                     rng = rp.block_range(node.resolve(q))
                 except Exception:  # noqa: BLE001
                     continue
+                # the range the lift works on must be the block range of these two positions (both inside the
+                # isolating node): a range that is too shallow makes the lift act on the node's surroundings
+                try:
+                    br = refdoc.block_range(refdoc.resolve(p), refdoc.resolve(q))
+                except Exception:  # noqa: BLE001  (mid-pair positions)
+                    br = None
+                got3 = None if rng is None else (rng.depth, rng.start, rng.end)
+                if br is not None and got3 != tuple(br[:3]) and (p, q) not in seen_br:
+                    seen_br.add((p, q))
+                    res.violate("c18.block_range", {**base, "helper": "block_range", "from": p, "to": q,
+                                                    "isolating_node_at": o}, got3, list(br[:3]), size=n)
                 if rng is None or rng.depth < depth_in:
                     continue
-                key = (rng.depth, rng.start, rng.end)
+                key = (rng.depth, rng.start, rng.end, rp.depth == rng.depth, rng.to.depth == rng.depth)
                 if key in seen:
                     continue
                 seen.add(key)
@@ -240,6 +284,26 @@ def check_max_open(res):
     res.sample({"max_open": "every pool fragment of iso/table/list scopes, open_isolating in {True, False}"})
 
 
+def with_parents(model, pool, limit=16):
+    """Slices cut 'with their parents' (Node.slice(a, b, include_parents=True)): one isolating top node, open on both
+    sides through it down to a textblock or its children - the slice names the wrapper (and its attributes) although
+    only part of its content is meant."""
+    out = []
+    for sl in pool:
+        if sl["openStart"] or sl["openEnd"] or len(sl["content"]) != 1:
+            continue
+        top = sl["content"][0]
+        if top["type"] == "text" or not model.types[top["type"]].isolating:
+            continue
+        dl = spine_depth(model, sl["content"], 0, True)
+        dr = spine_depth(model, sl["content"], -1, True)
+        for k in range(1, min(dl, dr) + 1):
+            out.append({"content": sl["content"], "openStart": k, "openEnd": k})
+        if len(out) >= limit:
+            break
+    return out[:limit]
+
+
 def run_unit(u):
     res = engine.UnitResult(PROPERTY_ID)
     engine.arm()
@@ -250,6 +314,7 @@ def run_unit(u):
         c, sc, docs = common.unit_docs(u)
         pool = common.pool_slices(u["sid"], u["donor"][0], u["donor"][1])
         pools = ops.default_pools(c, sc, pool, u.get("max_slices"), offset=u.get("offset", 0))
+        pools["slices"] = [*pools["slices"], *with_parents(c.model, pool)]
         k = 0
         for d in docs:
             check_doc(c, sc, d, pools, res)
